@@ -19,7 +19,7 @@ import tracecorr
 import val
 
 IMPORTS = ['DCPrelude', 'Val', 'DiskBase', 'SqlBase', 'Gen_Disk', 'Disk', 'Gen_Sql', 'Cache', 'CacheRun', 'Conc', 'Txn', 'ConcRun']
-OPS = ('set', 'add', 'incr', 'decr', 'get', 'pop', 'delete', 'touch', 'contains')
+OPS = ('set', 'add', 'incr', 'decr', 'get', 'pop', 'delete', 'touch', 'contains', 'setitem', 'delitem')
 MISS = '<miss>'
 EXN = {'KeyError': 'EKeyError', 'TypeError': 'ETypeError', 'OverflowError': 'EOverflow'}
 
@@ -51,6 +51,10 @@ def op_term(c):
     E = fw.copt(ticks(c.get('expire')))
     if op in ('set', 'add'):
         return '(%s %s %s false %s SNull)' % ('OSet' if op == 'set' else 'OAdd', K, val.py_term(c['value']), E)
+    if op == 'setitem':
+        return '(OSet %s %s false None SNull)' % (K, val.py_term(c['value']))
+    if op == 'delitem':
+        return '(ODelete %s true)' % K
     if op == 'touch':
         return '(OTouch %s %s)' % (K, E)
     if op in ('incr', 'decr'):
@@ -68,7 +72,8 @@ def op_term(c):
 
 
 def call_term(c, now):
-    return '{| cc_op := %s; cc_retry := %s; cc_now := %s; cc_pg := 0 |}' % (op_term(c), fw.cbool(bool(c.get('retry', False))), fw.cz(ticks(now)))
+    retry = True if c['op'] in ('setitem', 'delitem') else bool(c.get('retry', False))     # cache[k] = v and del cache[k] retry
+    return '{| cc_op := %s; cc_retry := %s; cc_now := %s; cc_pg := 0 |}' % (op_term(c), fw.cbool(retry), fw.cz(ticks(now)))
 
 
 def seen_term(rec):
@@ -78,6 +83,8 @@ def seen_term(rec):
         return 'XRes (RRaise %s)' % EXN.get(rec['exc'], 'EStore')
     op = rec['op']
     r = rec.get('result')
+    if op in ('setitem', 'delitem'):
+        return 'XRes (RBool true)'
     if op in ('set', 'add', 'touch', 'delete', 'contains'):
         return 'XRes (RBool %s)' % fw.cbool(bool(r))
     if r == MISS or r == '<MISS>' or (isinstance(r, str) and r.startswith('<') and 'miss' in r.lower()):
@@ -127,6 +134,40 @@ def build(r, programs, setup, settings, now=1000.0):
         fw.clist([fw.clist(row) for row in seen]),
         seqdrv.obs_term(r['final'])[len('(Some '):-1])
     return term, {'events': [(i, tag) for (_, _, i, tag) in merged], 'seen': seen}
+
+
+def cfg_term(settings):
+    s = dict(settings or {})
+    return ('{| c_policy := %s; c_size_limit := %s; c_cull_limit := %s; c_min_file_size := %s; c_codec := mk_codec [] [] |}'
+            % (seqdrv.POLICY[s.get('eviction_policy', 'least-recently-stored')], fw.cz(s.get('size_limit', 2 ** 30)),
+               fw.cz(s.get('cull_limit', 10)), fw.cz(s.get('disk_min_file_size', 2 ** 15))))
+
+
+def build_crash(k, program, setup, settings, obs, now=1000.0, setup_now=900.0):
+    """k: result of concdrv.kill_child (one client killed before one of its events); obs: seqdrv.observe of the
+    directory right after the kill.  Returns (term, info) or (None, reason)."""
+    if not supported([program], setup):
+        return None, 'unsupported-op'
+    if any(c.get('expire') is not None and c['op'] not in ('set', 'add', 'touch') for c in program):
+        return None, 'unsupported-op'
+    events = list(k['events'])          # the events that executed (the one the kill landed before is k['kill_event'])
+    recs = sorted(k['records'], key=lambda r: r['index'])
+    merged, seen = [], []
+    for rec in recs:
+        if rec.get('skipped'):
+            return None, 'run-incomplete'
+        evs = [tuple(e.split(':', 1)) for e in events[rec.get('e0', 0):rec['e1']]]
+        merged += tracecorr.call_tags(evs, timed_out=(rec.get('exc') == 'Timeout'))
+        seen.append(seen_term(dict(rec, op=program[rec['index']]['op'])))
+    inflight = False
+    if k.get('started') is not None and k.get('started_e0') is not None and k['started'] not in [r['index'] for r in recs]:
+        evs = [tuple(e.split(':', 1)) for e in events[k['started_e0']:]]
+        merged += tracecorr.call_tags(evs)
+        inflight = True
+    term = 'crash_check %s init_st %s %s %s %s %s %s' % (
+        cfg_term(settings), fw.clist([call_term(c, setup_now) for c in (setup or [])]), fw.clist([call_term(c, now) for c in program]),
+        fw.clist(['(0%%nat, %s)' % t for t in merged]), fw.clist(seen), fw.cbool(inflight), seqdrv.obs_term(obs)[len('(Some '):-1])
+    return term, {'events': [(0, t) for t in merged], 'seen': [seen]}
 
 
 def evaluate(name, terms, chunk=40):
